@@ -46,6 +46,12 @@ def gen(tier, seed):
         for fill in ('auto', 'nan'):
             yield {'mesh': mesh, 'start_index': 1, 'fill': fill, 'transposed': False, 'tables': ['edge_node', 'face_edge', 'edge_face', 'face_face'], 'edge_dimension': 'auto',
                    'coords_as': 'vars', 'edge_order': 'reverse', 'mixed_base': True}
+    # meshes in which another dimension has size two as well and comes first (exactly two faces; two nodes per ... no: two faces): the
+    # dimension of the edge tables is still 'Two', and supplied tables are used as given
+    for mesh in ({'ny': 1, 'nx': 2, 'split': [], 'merge': []}, {'ny': 2, 'nx': 1, 'split': [], 'merge': []}):
+        for tables in (['edge_node'], ['edge_node', 'edge_face'], ['edge_node', 'face_edge', 'edge_face', 'face_face']):
+            yield {'mesh': mesh, 'start_index': 0, 'fill': 'auto', 'transposed': False, 'tables': tables, 'edge_dimension': 'auto',
+                   'coords_as': 'vars', 'edge_order': 'reverse'}
     for mesh in meshes:     # other spellings
         yield {'mesh': mesh, 'start_index': None, 'fill': 'int_fill', 'transposed': False, 'tables': ['edge_node'], 'edge_dimension': 'auto',
                'coords_as': 'vars', 'edge_order': 'reverse', 'two_name': 'nv'}
